@@ -284,6 +284,7 @@ type gen struct {
 	external map[string]int
 	assumed  map[string]bool
 	pending  []func()
+	steps    int
 	guarded  map[string]int // guarded field name -> id
 	accesses []accessRec
 	accSeen  map[string]bool
@@ -879,6 +880,10 @@ func (g *gen) block(stmts []ast.Stmt, c *ctx, k K) *S {
 }
 
 func (g *gen) stmt(s ast.Stmt, c *ctx, k K) *S {
+	g.steps++
+	if g.steps > 400000 {
+		return unknown("translation budget exceeded (too many paths) in " + c.where)
+	}
 	switch x := s.(type) {
 	case nil:
 		return k(c)
